@@ -512,6 +512,20 @@ impl RawLexer {
             None => return false,
             Some(c) => c,
         };
+        // The ^^xy form: two lower case hex digits denote the character with that code.
+        let hex = |c: char| matches!(c, '0'..='9' | 'a'..='f').then(|| c.to_digit(16).unwrap());
+        let char_4 = self.current_line[char_3_start + char_3.len_utf8()..].chars().next();
+        if let (Some(hi), Some(lo)) = (hex(char_3), char_4.and_then(hex)) {
+            if !char_1_consumed {
+                self.advance();
+            }
+            self.advance();
+            self.advance();
+            let m = char::from_u32(16 * hi + lo).unwrap();
+            self.current_line
+                .replace_range(self.pos..self.pos + 1, m.encode_utf8(&mut [0; 2]));
+            return true;
+        }
         if !char_1_consumed {
             self.advance();
         }
